@@ -44,7 +44,8 @@ BOUND = {
     "rotations); every 3-residue window of 1AJJ, 1BX8, cterm_hid (real "
     "geometry); one chain with a geometric backbone gap x 20 residue types; "
     "2 deviations: every truncated side chain + a water on the position of "
-    "the rebuilt atom",
+    "the rebuilt atom; >=2 clash probes on one residue (all side-chain "
+    "hydrogens at once, every hydrogen paired with the first/last one)",
     "thorough": "quick + every 3-residue window of all seven bundled "
     "protein structures (1433 windows) + water probes at 3.4 A, partner poses for all 15 "
     "partner residues, 2 deviations (water+water, omitted atom+water), "
@@ -174,6 +175,24 @@ def run_case(case):
                 {"dihedral": names, "moved": sorted(moved),
                  "beyond_bond": sorted(far)}))
         left = far - moved
+        if moved and left:
+            # atoms lying on the rotation axis (CZ/HZ of a phenyl ring for
+            # the CB-CG axis) do not move: predicted displacement
+            # d_m * r_l / r_m from a moved atom m well off the axis
+            pa_ = np.array(snap[names[1]])
+            ax_ = np.array(snap[names[2]]) - pa_
+            ax_ /= np.linalg.norm(ax_)
+
+            def radius(nm):
+                v = np.array(snap[nm]) - pa_
+                return float(np.linalg.norm(v - np.dot(v, ax_) * ax_))
+            ref = max(moved, key=radius)
+            cur = residue.get_atom(ref)
+            dm = float(np.linalg.norm(np.array([cur.x, cur.y, cur.z])
+                                      - np.array(snap[ref])))
+            rm = radius(ref)
+            left = {l for l in left
+                    if rm > 1e-9 and dm * radius(l) / rm > 1e-6}
         if moved and left:
             viol.append((
                 f"C04/torsion/{base}/{pos}/{names[1]}-{names[2]}/"
@@ -316,6 +335,7 @@ def enumerate_cases(tier, seed):
     cases += s3.clash_cases("AMBER")
     cases += s3.omit_cases("AMBER")
     cases += s3.water_cases("AMBER", dists=(2.8,))
+    cases += s3.multi_clash_cases("AMBER", all_pairs=(tier != "quick"))
     cases += s3.gap_cases("AMBER", ("default", "noopt"))
     cases += s3.rebuilt_clash_cases("AMBER")
     wfiles = (["1AJJ.pdb", "1BX8.pdb", "cterm_hid.pdb"] if tier == "quick"
